@@ -15,13 +15,6 @@ EXTENDS Common, Json
 CONSTANTS Frags, MaxFrag
 VARIABLES s, n
 vars == <<s, n>>
-RECURSIVE Subst(_)
-Subst(f) == IF f = "" THEN ""
-            ELSE IF Len(f) >= 2 /\ SubSeq(f, 1, 2) = "BS" THEN "\\" \o Subst(SubSeq(f, 3, Len(f)))
-            ELSE IF Len(f) >= 2 /\ SubSeq(f, 1, 2) = "DQ" THEN "\"" \o Subst(SubSeq(f, 3, Len(f)))
-            ELSE IF Len(f) >= 2 /\ SubSeq(f, 1, 2) = "NL" THEN "\n" \o Subst(SubSeq(f, 3, Len(f)))
-            ELSE IF Len(f) >= 2 /\ SubSeq(f, 1, 2) = "CR" THEN "\r" \o Subst(SubSeq(f, 3, Len(f)))
-            ELSE SubSeq(f, 1, 1) \o Subst(Tail(f))
 Init == s = "" /\ n = 0
 Next == n < MaxFrag /\ \E f \in Frags : s' = s \o Subst(f) /\ n' = n + 1
 Spec == Init /\ [][Next]_vars
